@@ -485,16 +485,23 @@ func (sc *c16CKKS) runRefresh(d *c16Deploy, ct *rlwe.Ciphertext, m []*bignum.Com
 			// decode only - the function of the slot values comes back as the coefficients of an un-batched
 			// plaintext (real parts, then imaginary parts); encode only - the coefficients of an un-batched input
 			// are taken as slot values, the function of them is encoded
-			if cp.RingType() == ring.ConjugateInvariant || ch.Bool("decode-only") {
+			if ch.Bool("decode-only") {
 				mixed = 1
 				tf.Encode = false
 				ctx.Count("probe.transform-decode-only", 1)
 			} else {
 				mixed = 2
 				tf.Decode = false
+				// (in the conjugate-invariant ring the coefficients are the real parts alone)
 				cs := make([]*big.Float, 2*slots)
+				if cp.RingType() == ring.ConjugateInvariant {
+					cs = cs[:slots]
+				}
 				for i := range m {
-					cs[i], cs[i+slots] = m[i][0], m[i][1]
+					cs[i] = m[i][0]
+					if cp.RingType() != ring.ConjugateInvariant {
+						cs[i+slots] = m[i][1]
+					}
 				}
 				pt2 := ckks.NewPlaintext(cp, level)
 				*pt2.MetaData = *ct.MetaData
